@@ -5,11 +5,13 @@ import (
 	"fmt"
 	"math/rand/v2"
 	"os"
+	"os/signal"
 	"path/filepath"
 	"runtime"
 	"strings"
 	"sync"
 	"sync/atomic"
+	"syscall"
 	"time"
 
 	"github.com/anishathalye/porcupine"
@@ -18,7 +20,26 @@ import (
 	"verifharness/vkit"
 )
 
-func init() { register("C06", checkC06) }
+func init() {
+	register("C06", checkC06)
+	// a write beyond RLIMIT_FSIZE must return EFBIG instead of killing the process
+	signal.Ignore(syscall.SIGXFSZ)
+	syscall.Getrlimit(syscall.RLIMIT_FSIZE, &fsizeOrig)
+}
+
+var fsizeOrig syscall.Rlimit
+
+// failedWriteFirst: before the tasks start, one create into another file of the directory
+// fails at its write (the disk is full for that one call: RLIMIT_FSIZE 0); whatever the
+// library keeps from that call must not matter to the calls that follow.
+func failedWriteFirst(root string) {
+	syscall.Setrlimit(syscall.RLIMIT_FSIZE, &syscall.Rlimit{Cur: 0, Max: fsizeOrig.Max})
+	defer syscall.Setrlimit(syscall.RLIMIT_FSIZE, &fsizeOrig)
+	t := vkit.NewT("TestFull")
+	snaps.WithConfig(snaps.Dir(root), snaps.Filename("full")).MatchSnapshot(t, "the disk is full while this is written")
+	t.Take()
+	t.Finish()
+}
 
 // ---- workload
 
@@ -43,6 +64,8 @@ type workload struct {
 	// Link: tasks with an odd index reach the same directory through a symbolic link
 	// (another spelling of the same file: state keyed by the path string would split)
 	Link bool `json:"link,omitempty"`
+	// FailedWrite: before the tasks start a create into another file fails at its write
+	FailedWrite bool `json:"failed_write_first,omitempty"`
 }
 
 func valFor(api, tag string) (input, stored string) {
@@ -115,6 +138,7 @@ func genWorkload(r *rand.Rand, ntasks int) *workload {
 	w.Seed["TestPre - 2"] = "untouched last"
 	r.Shuffle(len(w.Pre), func(i, j int) { w.Pre[i], w.Pre[j] = w.Pre[j], w.Pre[i] })
 	w.Link = r.IntN(2) == 0
+	w.FailedWrite = r.IntN(4) == 0
 	return w
 }
 
@@ -440,6 +464,9 @@ func tokenCase(c *vkit.Ctx, i int) {
 	snaps.VerifResetProcessState()
 	snaps.VerifSetMode(false, "")
 	snaps.VerifSetNoColor(r.IntN(2) == 0)
+	if w.FailedWrite {
+		failedWriteFirst(root)
+	}
 	h := &recorder{}
 	var outcomes []string
 	var omu sync.Mutex
@@ -590,6 +617,9 @@ func freeMode(c *vkit.Ctx) {
 		snaps.VerifSetMode(false, "")
 		// colours on in half of the runs: failing single-line comparisons then take the inline-highlight path
 		snaps.VerifSetNoColor(i%2 == 0)
+		if w.FailedWrite {
+			failedWriteFirst(root)
+		}
 		h := &recorder{}
 		var outcomes []string
 		var omu sync.Mutex
